@@ -34,7 +34,7 @@ def s256(x):
 class Case:
     """one generated test function"""
 
-    def __init__(self, ch, allow_bytes=True, name="check_g", setup=None, light=False, store_forms=False):
+    def __init__(self, ch, allow_bytes=True, name="check_g", setup=None, light=False, store_forms=False, allow_unnamed=False):
         self.ch = ch
         self.light = light
         # (C20 only) the test first writes a mapping slot m[K] (base slot 1, K outside halmos' precomputed table) either
@@ -51,6 +51,10 @@ class Case:
         self.has_bytes = allow_bytes and ch.chance(0.3, "c.bytes")
         self.types = ["uint256"] * self.nstatic + (["bytes"] if self.has_bytes else [])
         self.names = [f"a{i}" for i in range(self.nstatic)] + (["bs"] if self.has_bytes else [])
+        # parameters without names are legal Solidity: halmos then has nothing but its fresh-symbol suffix to tell them apart
+        self.unnamed = bool(allow_unnamed and self.nstatic >= 2 and ch.chance(0.15, "c.unnamed"))
+        if self.unnamed:
+            self.names = [""] * self.nstatic + (["bs"] if self.has_bytes else [])
         self.sig = name + "(" + ",".join(self.types) + ")"
         self.setup_value = ch.choose([None, 0, 7, 1 << 200], "c.setup")
         # symbolic setUp: slot 0 holds svm.createUint256("s") constrained to s > 5, and a second symbol t < 100 is
@@ -480,6 +484,15 @@ def decode_model(case: Case, model) -> tuple[list[int], int, bytes] | None:
     for full, var in model.model.items():
         vals[(var.variable_name, var.solidity_type)] = var.value
     statics = [vals.get((f"a{i}", "uint256"), 0) for i in range(case.nstatic)]
+    case.model_alternatives = None
+    if getattr(case, "unnamed", False):
+        # which unnamed value belongs to which position is not recoverable from the printed names: every assignment counts
+        import itertools
+
+        anon = [var.value for var in model.model.values() if var.variable_name == "" and var.solidity_type == "uint256"]
+        anon = (anon + [0] * case.nstatic)[: max(case.nstatic, len(anon))]
+        case.model_alternatives = [list(p_[: case.nstatic]) for p_ in set(itertools.permutations(anon, len(anon)))]
+        statics = case.model_alternatives[0]
     case.model_sym = {k: vals[(k, "uint256")] for k in ("s", "t") if (k, "uint256") in vals}
     blen, bdata = 0, b""
     if case.has_bytes:
@@ -542,7 +555,7 @@ class C03Check:
         unknown_rate = ch.choose([0.0, 0.1, 1.0], "sw.unk") if faulted else 0.0
         fault_rate = ch.choose([0.0, 0.3], "sw.frate") if faulted else 0.0
         preempt_k = ch.choose([0, 0, 10], "sw.preempt") if faulted else 0
-        case = Case(ch)
+        case = Case(ch, allow_unnamed=True)
         rt, cj, bom = case.build()
         # confirm the construction on the reference EVM
         wit = case.reference_outcome(rt, case.calldata(case.w, case.wlen, case.wbytes))
@@ -609,6 +622,10 @@ class C03Check:
                 statics, blen, bdata = dec
                 cd = case.calldata(statics, blen, bdata)
                 got = case.reference_outcome(rt, cd, sym=case.model_sym)
+                for alt in (case.model_alternatives or [])[1:]:
+                    if got == "fail":
+                        break
+                    got = case.reference_outcome(rt, case.calldata(alt, blen, bdata), sym=case.model_sym)
                 if mdl.is_valid:
                     probes["valid_models"] = probes.get("valid_models", 0) + 1
                     if got != "fail" and not case.uses_hash:
